@@ -54,10 +54,18 @@ def enum_const_table(prog, fn, adt):
     out = {}
     EXTERNAL = {"core::cmp::Ordering": {-1: "Less", 0: "Equal", 1: "Greater"}}
     if adt in prog.adts:
-        names = {v.get("discr", v["idx"]) if False else v["idx"]: v["name"] for v in prog.adts[adt]["variants"]}
+        names = {v.get("discr", v["idx"]): v["name"] for v in prog.adts[adt]["variants"]}
     else:
         names = EXTERNAL[adt]
-    for sb, place, targets, oth in kit.discr_switches(fn, adt):
+    switches = list(kit.discr_switches(fn, adt))
+    if not switches and adt in prog.adts:
+        # `*self as u16` on an enum with explicit discriminants: the table is the enum's own
+        e = fn.local_expr(0, 8)
+        while e[0] == "cast":
+            e = e[3]
+        if e[0] == "discr" and e[2] == adt:
+            return {v["name"]: ("const", v.get("discr", v["idx"])) for v in prog.adts[adt]["variants"]}
+    for sb, place, targets, oth in switches:
         for vi, tb in targets.items():
             val, at = first_value_after(fn, tb)
             out[names[vi]] = val
